@@ -384,6 +384,16 @@ func (p *TxProcessor) VerifyTxBeforeApply(tx *types.Transaction) error {
 	return nil
 }
 
+// forkAssetDb looks assets up as they are known on the fork of the block which is executed, starting at its parent block
+type forkAssetDb struct {
+	db         protocol.ChainDB
+	parentHash common.Hash
+}
+
+func (f *forkAssetDb) GetAssetCode(code common.Hash) (common.Address, error) {
+	return f.db.GetAssetCodeByBlock(code, f.parentHash)
+}
+
 // applyTx processes transaction. Change accounts' data and execute contract codes.
 func (p *TxProcessor) applyTx(gp *types.GasPool, header *types.Header, tx *types.Transaction, txIndex uint, blockHash common.Hash, restApplyTime int64) (uint64, error) {
 	// 执行交易之前的交易校验
@@ -482,7 +492,7 @@ func (p *TxProcessor) handleTx(tx *types.Transaction, header *types.Header, txIn
 	case params.TransferAssetTx:
 		newContext := NewEVMContext(tx, header, txIndex, blockHash, p.blockLoader)
 		vmEnv := vm.NewEVM(newContext, p.am, *p.cfg)
-		_, restGas, err, vmErr = vmEnv.TransferAssetTx(sender, recipientAddr, restGas, tx.Data(), p.db)
+		_, restGas, err, vmErr = vmEnv.TransferAssetTx(sender, recipientAddr, restGas, tx.Data(), &forkAssetDb{db: p.db, parentHash: header.ParentHash})
 	case params.ModifySignersTx:
 		multisigEnv := NewSetMultisigAccountEnv(p.am)
 		err = multisigEnv.ModifyMultisigTx(senderAddr, recipientAddr, tx.Data())
